@@ -1,8 +1,12 @@
 #!/bin/bash
 # Re-run the property's own check (and the checks named in eval.log) against every
 # seeded change with the current checks; writes seeded/<dir>/final.log.
-# usage: tools/seedmatrix.sh [parallelism]
+# usage: tools/seedmatrix.sh [parallelism] [seed]   (seed given: results go to final-s<seed>.log)
 par=${1:-3}
+seed=${2:-}
+export MUT_SEED=$seed
+out=final${seed:+-s$seed}.log
+export out
 cd /verif
 # frozen copy of the checks, so that edits in /verif during the (long) run do not leak into it
 snap=/tmp/verif-snap
@@ -16,5 +20,5 @@ ls -d seeded/*/ | while read d; do
   others=$(grep -oE '^=== C[0-9]+' $d/eval.log 2>/dev/null | awk '{print $2}' | sort -u | grep -v "^$id$" | tr '\n' ' ')
   # (xargs -L continues a line that ends in a blank)
   echo "$name $id $others" | sed 's/ *$//'
-done | xargs -P $par -L 1 sh -c 'name=$0; id=$1; shift; /verif/tools/mutate.sh fm-$name /verif/seeded/$name/patch.diff -- $id "$@" 2>&1 | grep -E "^===|^exit=|VIOLATION|INCONCLUSIVE" > /verif/seeded/$name/final.log; echo "done $name"'
+done | xargs -P $par -L 1 sh -c 'name=$0; id=$1; shift; /verif/tools/mutate.sh fm-$name /verif/seeded/$name/patch.diff -- $id "$@" 2>&1 | grep -E "^===|^exit=|VIOLATION|INCONCLUSIVE" > /verif/seeded/$name/$out; echo "done $name"'
 rm -rf $snap
